@@ -53,6 +53,7 @@ import (
 	"reflect"
 	"regexp"
 	"slices"
+	"strings"
 	_ "unsafe"
 
 	"golang.org/x/tools/go/ssa"
@@ -94,6 +95,7 @@ type interpreter struct {
 	depth              int
 	onceDone           map[*value]bool
 	stack              []*ssa.Function
+	inHarness          bool
 	regexps            map[*value]*regexp.Regexp
 }
 
@@ -566,6 +568,9 @@ func callSSA(i *interpreter, caller *frame, callpos token.Pos, fn *ssa.Function,
 		unsup("call depth > 400 in %s", fn)
 	}
 	entry := len(i.stack)
+	if i.m != nil && i.inHarness && fn.Pkg != nil && strings.HasPrefix(fn.Pkg.Pkg.Path(), RepoMod) && !strings.HasSuffix(fn.Pkg.Pkg.Path(), "/zzverif") {
+		i.m.Funcs[fn.String()]++
+	}
 	i.stack = append(i.stack, fn)
 	defer func() {
 		i.depth--
